@@ -1,4 +1,4 @@
 From Coq Require Import Extraction ExtrOcamlBasic NArith ZArith List.
-From MV Require Import Base.PyStr Base.Res Refs.RUtil Gen.Transforms Refs.Foot.
+From MV Require Import Base.PyStr Base.Res Refs.RUtil Gen.Transforms Refs.Foot Refs.FootOps Refs.DocutilsOps Gen.DocutilsFootSrc.
 Extraction Language OCaml.
-Extraction "model.ml" N.succ N.to_nat run run_legacy run_with pipeline docutils_footnotes ref_out dappend dval.
+Extraction "model.ml" N.succ N.to_nat run run_legacy run_with pipeline docutils_footnotes ref_out dappend dval footnotes_apply_src ds_init project ref_result.
